@@ -25,6 +25,12 @@ def random_case(prop, rng, tier):
     if rng.random() < 0.2:
         for _ in range(rng.randrange(1, 3)):
             tasks.append({'id': rng.choice([100, 101, rng.randrange(1, n + 1)]), 'parent': None, 'est': rng.choice(EST), 'spent': None, 'member': False})
+    if rng.random() < 0.15:
+        # ids may be strings - also words a program might use for its own bookkeeping
+        words = ['end', 'start', 'begin', 'finish', 'root', 'None', '0', 'id']
+        rng.shuffle(words)
+        for t, wd in zip(rng.sample(tasks[:n], min(n, rng.randrange(1, 4))), words):
+            t['id'] = wd
     total = len(tasks)
     links = []
     for _ in range(rng.randrange(0, n + 4)):
